@@ -738,9 +738,13 @@ impl<K: KeyT, V: ValT> MapRunner<K, V> {
             }
         }
         for id in tape::take_returned() {
-            // probe keys / rejected arguments handed back are not in `live`; that is fine
-            if self.live.remove(&id) && !self.dead.insert(id.clone()) {
-                return Some(format!("object {} handed back after it was dropped", id));
+            // probe keys / rejected arguments handed back are neither in `live` nor in `dead`; that is fine
+            if self.live.remove(&id) {
+                if !self.dead.insert(id.clone()) {
+                    return Some(format!("object {} handed back after it was dropped", id));
+                }
+            } else if self.dead.contains(&id) {
+                return Some(format!("object {} handed to the caller although the collection dropped it (or handed it out before)", id));
             }
         }
         for id in &held {
